@@ -100,6 +100,7 @@ def gen_target(rnd, t):
         elif m < 0.61: x = "/" + x
         elif m < 0.64: x = x + "/."
         elif m < 0.67: x = x + "?a=/../b"
+        elif m < 0.72: x = x + rnd.choice(["?next=/", "#/", "?return=" + x + "/", "?/", "?a=b/#c/", "?x=.html", "#.html", "?index.html"])    # query or fragment that looks like a path ending
         return x
     if r < 0.82:
         segs = [rnd.choice(["..", ".", "", "sub", "a.txt", "secret0.txt", "secret5.txt", "outer", "root", "rootx", "leak.txt", "%2e%2e", "index.html", "x",
@@ -114,6 +115,9 @@ EXTRA_HEADERS = ["Host: localhost", "Host: 127.0.0.1:7878", "User-Agent: Mozilla
                  "Accept-Language: de-DE,de;q=0.9", "Connection: keep-alive", "Cookie: a=b; c=d", "X-Forwarded-For: 10.0.0.1", "If-None-Match: \"abc\"",
                  "If-Modified-Since: Sat, 29 Oct 1994 19:43:31 GMT", "Cache-Control: no-cache", "Referer: https://foo.example/page?x=1", "X-Empty:", "X-A: é",
                  "Upgrade-Insecure-Requests: 1", "If-Range: \"abc\"", "TE: trailers", "X-Range: bytes=0-0", "X-Origin: https://evil.example"]
+
+
+VERSIONS = ["HTTP/1.0", "HTTP/1.0", "HTTP/0.9", "HTTP/2.0", "http/1.1", "Http/1.0", "HTTP/1.1"]
 
 
 def gen_cors(rnd):
@@ -169,7 +173,16 @@ def serve_case(rnd, kind="serve", tree=None, target=None, method=None, headers=N
         # headers every client sends and the server has no use for, before, between and after the ones the case is about
         for _ in range(rnd.randint(1, 3)):
             hs.insert(rnd.randrange(len(hs) + 1), rnd.choice(EXTRA_HEADERS))
-    req = (meth + " " + tg + " HTTP/1.1\r\n" + "".join(h + "\r\n" for h in hs) + "\r\n").encode("utf-8", "surrogateescape") + body
+    ver = "HTTP/1.1"
+    if raw_req is None and rnd.random() < 0.12:
+        ver = rnd.choice(VERSIONS)           # every supported version, in either letter case
+    if raw_req is None and rnd.random() < 0.12:
+        # header names in another letter case (lookups ignore case)
+        def recase(h):
+            k = h.find(":")
+            return h if k <= 0 else rnd.choice([h[:k].lower(), h[:k].upper(), h[:k].swapcase()]) + h[k:]
+        hs = [recase(h) for h in hs]
+    req = (meth + " " + tg + " " + ver + "\r\n" + "".join(h + "\r\n" for h in hs) + "\r\n").encode("utf-8", "surrogateescape") + body
     if raw_req is not None:
         req = raw_req(req) if callable(raw_req) else raw_req
     line = "%s %s outer/root %s %s %s" % (kind, BASE, cors, t.spec(), hx(req))
